@@ -52,6 +52,7 @@ def run(cx, chk):
                      ("C11.R4", "lt/le/gt/ge/eq = OP(estimate expression of a, estimate expression of b) on every path"),
                      ("C11.R5", "Bloom::add and Bloom::contains probe the same indices; contains_or_add adds iff absent"),
                      ("C11.R6", "nibble increment guarded by v < 15; reset maps every byte through (b >> 1) & 0x77"),
+                     ("C11.R8", "Bloom::clear, CountMinRow::clear and CountMinRow::reset wipe their whole vector (no index, range or split between the field and the fill / loop)"),
                      ("C11.R7", "the doorkeeper has at least one hash location for every accepted configuration (sign analysis of the sizing formulas)")):
         chk.rule(rid, txt)
     for cfg, F in cx.cfgs():
@@ -61,6 +62,7 @@ def run(cx, chk):
         r5(cx, chk, cfg, F)
         r6(cx, chk, cfg, F)
         r7(cx, chk, cfg, F)
+        r8(cx, chk, cfg, F)
 
 
 def r1(cx, chk, cfg, F):
@@ -440,6 +442,55 @@ def r6(cx, chk, cfg, F):
         chk.ob("C11.R6", cfg + ":row-reset", "every byte := (b >> 1) & 0x77")
     else:
         chk.violation("C11.R6", "row-reset|none", "CountMinRow::reset does not rewrite the counter bytes", f["span"]["file"], f["span"]["lo"], f["q"], None, cfg)
+
+
+def whole_of(p, t, fld):
+    """does term t (receiver of fill / iter_mut / a loop) denote the WHOLE vector self.<fld> - reached through deref/as_mut_slice/iter_mut
+    only, never through an index, range or split?"""
+    for _ in range(8):
+        if isinstance(t, tuple) and t[0] == "ref" and t[1][0] == "H" and t[1][1] == ("param", 1, True) and t[1][2] == (fld,):
+            return True
+        if isinstance(t, tuple) and t[0] == "call":
+            ce = [e for e in p.events if e["ev"] == "call" and e.get("id") == t[1]]
+            if not ce or not ce[0]["args"] or (ce[0]["q"] or "").split("::")[-1] not in ("deref_mut", "deref", "as_mut_slice", "as_mut", "iter_mut", "borrow_mut", "into_iter"):
+                return False
+            t = ce[0]["args"][0]
+            continue
+        return False
+    return False
+
+
+def r8(cx, chk, cfg, F):
+    """`reset halves the counts and clears the doorkeeper`, `0 for every key right after clear`: the three wipe functions cover their
+    whole vector (a sub-slice would leave bits / counters behind)"""
+    ROW = "lfu::tinylfu::sketch::count_min_row::CountMinRow"
+    for q, fld in ((BLOOM + "::clear", "bitset"), (ROW + "::clear", "0"), (ROW + "::reset", "0")):
+        f = F.find(q)
+        good = False
+        bad = None
+        for p in cx.paths(cfg, f["path"]):
+            for e in p.events:
+                if e["ev"] == "call" and (e["q"] or "").split("::")[-1] == "fill" and e["args"]:
+                    if whole_of(p, e["args"][0], fld):
+                        good = True
+                    else:
+                        bad = "fills only part of self.%s (%s)" % (fld, fmt_val(e["args"][0])[:60])
+                if e["ev"] == "loop":
+                    if whole_of(p, e.get("iter"), fld):
+                        good = True
+                    elif isinstance(e.get("iter"), tuple):
+                        bad = "iterates over only part of self.%s (%s)" % (fld, fmt_val(e["iter"])[:60])
+                if e["ev"] == "call" and (e["q"] or "").endswith("Iterator>::next") and e["args"]:
+                    it = e["args"][0]
+                    if isinstance(it, tuple) and it[0] == "ref" and p.st is not None:
+                        it = absint.Interp(None).read(p.st, it[1])
+                    if whole_of(p, it, fld):
+                        good = True
+        if bad or not good:
+            chk.violation("C11.R8", q.split("::")[-2] + "::" + q.split("::")[-1], "%s %s: what it skips survives every reset / clear" % (q, bad or ("does not visibly wipe the whole of self.%s" % fld)),
+                          f["span"]["file"], f["span"]["lo"], f["q"], None, cfg)
+        else:
+            chk.ob("C11.R8", "%s:%s" % (cfg, q), "covers the whole of self.%s" % fld)
 
 
 def r7(cx, chk, cfg, F):
